@@ -135,6 +135,30 @@ example :
       (i.deriv (fun _ => 7)).map (fun j => (j.run d 0, j.run d 1)) = some (i.run d 0, i.run d 1) := by
   decide
 
+/-- `derivative(x)` is its own derivative at every point (idempotence of `derivative`): for
+every well-formed tree, `derivative(x).derivative(y)` exists and acts exactly like
+`derivative(x)`, for all `x`, `y` — the second derivative call of the code returns an operator
+equivalent to the first. -/
+theorem C06.deriv_deriv {R : Type} [CommRing R] [DecidableEq R]
+    (i : Impl R) (hwf : i.wf = true) (x y : Vec R) :
+    ∃ j j2, i.deriv x = some j ∧ j.deriv y = some j2 ∧
+      ∀ (d : Vec R) (k : Nat), j2.run d k = j.run d k := by
+  obtain ⟨j, e, w, _, _, _, hl⟩ := deriv_type i x hwf
+  obtain ⟨j2, e2, _⟩ := deriv_type j y w
+  exact ⟨j, j2, e, e2, OdlModel.Deriv.deriv_linear j w hl y j2 e2⟩
+
+/-- Non-vacuity of `deriv_deriv` on a case where the second call REBUILDS the operator
+(`PowerOperator` gives `p · MultiplyOperator`, a right scalar multiple is rebuilt again). -/
+example :
+    let i : Impl Int := .rscal (.power 2 3) 2
+    let x : Vec Int := fun k => k + 1
+    let d : Vec Int := fun k => 2 * k + 1
+    i.wf = true ∧
+      ((i.deriv x).bind (fun j => j.deriv d)).map (fun j2 => (j2.run d 0, j2.run d 1))
+        = (i.deriv x).map (fun j => (j.run d 0, j.run d 1)) ∧
+      (i.deriv x).map (fun j => (j.run d 0, j.run d 1)) = some (24, 288) := by
+  decide
+
 /-- Affine operators have the derivative of their linear part: `OperatorVectorSum(op, v)` with
 `op` flagged linear has a derivative acting like `op`, and `ConstantOperator` has derivative
 zero. -/
@@ -403,5 +427,51 @@ theorem C06.model_central_diff_tendsto [DecidableEq ℝ] (i : Impl ℝ) (hwf : i
   obtain ⟨j, e, hk⟩ := C06.model_line_hasDerivAt i hwf x d
   exact ⟨j, e, fun k => central_diff_tendsto_of_hasDerivAt
     (fun s : ℝ => i.run (fun m => x m + s * d m) k) (j.run d k) (hk k)⟩
+
+/-- The `O(h²)` RATE for the executed model over `ℝ` (no leaf hypotheses, every well-formed tree,
+base point, direction and output index): the error of the central difference quotient is
+EXACTLY `h² · Q(h)` for a polynomial `Q` — hence bounded by `C h²` near `0`, which is the rate the
+statement of C06 expects.  (Analytic counterpart of `central_diff_poly_partial`; the classes
+outside the polynomial model stay oracle-only.) -/
+theorem C06.model_central_diff_rate [DecidableEq ℝ] (i : Impl ℝ) (hwf : i.wf = true) (x d : Vec ℝ) :
+    ∃ j, i.deriv x = some j ∧ ∀ k, ∃ Q : Polynomial ℝ, ∀ h : ℝ, h ≠ 0 →
+      (2 * h)⁻¹ * (i.run (fun m => x m + h * d m) k - i.run (fun m => x m + (-h) * d m) k)
+        - j.run d k = h ^ 2 * Q.eval h := by
+  obtain ⟨j, e, _⟩ := deriv_type i x hwf
+  exact ⟨j, e, fun k => impl_central_diff_rate i hwf x d j e k⟩
+
+/-- Non-vacuity: the rate statement instantiated on `x ↦ x³` at `x = 2`, `d = 1`. -/
+example [DecidableEq ℝ] : ∃ j, (Impl.power 1 3 : Impl ℝ).deriv (fun _ => 2) = some j ∧
+    ∀ k, ∃ Q : Polynomial ℝ, ∀ h : ℝ, h ≠ 0 →
+      (2 * h)⁻¹ * ((Impl.power 1 3 : Impl ℝ).run (fun _ => 2 + h * 1) k
+          - (Impl.power 1 3 : Impl ℝ).run (fun _ => 2 + (-h) * 1) k) - j.run (fun _ => 1) k
+        = h ^ 2 * Q.eval h :=
+  C06.model_central_diff_rate (Impl.power 1 3) (by decide) (fun _ => 2) (fun _ => 1)
+
+/-- `derivative` is well defined on the operator AS A MAP (executed model over `ℝ`): two
+well-formed expression trees that compute the same map — however they are bracketed, whether
+scalars are merged, whichever classes build them — have derivatives that act identically, at
+every base point and direction.  (Uniqueness of the derivative along lines.) -/
+theorem C06.deriv_extensional [DecidableEq ℝ] (i i' : Impl ℝ) (hwf : i.wf = true)
+    (hwf' : i'.wf = true) (hext : ∀ (x : Vec ℝ) (k : Nat), i.run x k = i'.run x k)
+    (x d : Vec ℝ) :
+    ∃ j j', i.deriv x = some j ∧ i'.deriv x = some j' ∧ ∀ k, j.run d k = j'.run d k := by
+  obtain ⟨j, e, hk⟩ := C06.model_line_hasDerivAt i hwf x d
+  obtain ⟨j', e', hk'⟩ := C06.model_line_hasDerivAt i' hwf' x d
+  refine ⟨j, j', e, e', fun k => ?_⟩
+  have h1 := hk k
+  have h2 := hk' k
+  have : (fun s : ℝ => i.run (fun m => x m + s * d m) k)
+      = fun s : ℝ => i'.run (fun m => x m + s * d m) k := by
+    funext s; exact hext _ k
+  rw [this] at h1
+  exact h1.unique h2
+
+/-- Non-vacuity: `6·x²` written as two different trees — nested `OperatorLeftScalarMult`s
+`3·(2·x²)` and the composition `ScalingOperator(6) ∘ x²` — compute the same map. -/
+example : ∀ (x : Vec ℝ) (k : Nat),
+    (Impl.lscal (.lscal (.power 2 2) 2) 3 : Impl ℝ).run x k
+      = (Impl.comp (.scaling 2 6) (.power 2 2) none : Impl ℝ).run x k := by
+  intro x k; simp [Impl.run]; ring
 
 end analytic
